@@ -26,7 +26,7 @@ RULE = ("tapped calls: signals of 1..200 samples (non-constant, sign-changing, i
         " Also: the same array object passed again after an in-place change, integer signals whose squares do not fit their dtype (int16 / int32 / int64 / uint8), noise through the Weaver after a random history, all arguments omitted (default std 1.0)."
         " Round-4 classes: SNR levels (scalar or per-sample) as whole numbers in NumPy integer types, signed / unsigned / narrow; snr, snr_in_db, std positionally."
         " Round-5 classes: one-element level arrays on longer signals, the flag as numpy.bool_.")
-REQUIRED_MONITORS = ["c15:tap", "c15:statistical", "c15:reproducible", "c15:same_object_again"]
+REQUIRED_MONITORS = ["c15:consecutive_requests", "c15:tap", "c15:statistical", "c15:reproducible", "c15:same_object_again"]
 ASSUMPTIONS = ["SNR > 0; the global NumPy RNG is the documented noise source"]
 NSHARDS = 16
 
@@ -228,6 +228,22 @@ def run_tapped_case(ctx, kind_, idx):
             if got2.shape != np.shape(want2) or not np.all(np.abs(got2 - want2) <= 1e-9 * np.abs(want2) + 1e-300):
                 ctx.violation("noise_scale_after_in_place_change_of_the_same_array", cid,
                               {"factor": factor, "tapped_scale": got2, "want": want2, "case": info})
+                return
+    # every request draws FRESH noise from the global generator: two requests in a row without re-seeding must not add
+    # the same numbers (and the first of them is the seeded one again)
+    if n >= 4 and np.all(np.asarray(c["scale"], dtype=float) > 0) and rng.integers(0, 3) == 0:
+        np.random.seed(npseed)
+        with Tap() as tapa:
+            noise_gauss(np.array(a), snr, **kw) if snr is not None else noise_gauss(np.array(a), **kw)
+        with Tap() as tapb:
+            noise_gauss(np.array(a), snr, **kw) if snr is not None else noise_gauss(np.array(a), **kw)
+        ctx.monitor("c15:consecutive_requests")
+        if len(tapa.calls) == 1 and len(tapb.calls) == 1:
+            if not np.array_equal(tapa.calls[0]["out"], c["out"]):
+                ctx.violation("not_reproducible_with_fixed_seed", cid, {"case": info, "at": "first of two consecutive requests"})
+                return
+            if np.array_equal(tapb.calls[0]["out"], tapa.calls[0]["out"]):
+                ctx.violation("consecutive_requests_add_the_same_noise", cid, {"case": info})
                 return
     # reproducibility with a fixed seed
     np.random.seed(npseed)
